@@ -482,3 +482,43 @@ def set_at(doc, cp, v):
     for k in cp[:-1]:
         doc = doc[k]
     doc[cp[-1]] = v
+
+
+# ----------------------------------------------------------------------------------- schemas
+def sorted_rules(rule_terms):
+    """shortest path first, ties in the given order (stable)"""
+    return sorted(rule_terms, key=lambda r: len(r[1][1]))
+
+
+def deep(x):
+    if isinstance(x, list):
+        return [deep(i) for i in x]
+    if isinstance(x, dict):
+        return {k: deep(v) for k, v in x.items()}
+    return x
+
+
+def schema_validate(schema_t, doc):
+    """-> dict(rules=[sorted rule terms], tests=[rule_test dicts], cast_data, valid, num_failures,
+    num_tested).  Cast rules select from the *input*, replace castable nodes in one private copy
+    shared by the whole validation, and are judged on that copy; cast-free rules are judged on
+    the input (what the code does; the statements are silent about it)."""
+    rules = sorted_rules(schema_t[1])
+    copy = deep(doc)
+    tests = []
+    for r in rules:
+        cast = r[3]
+        if cast:
+            for cp, node in walk(r[1], doc):
+                ok, new = cast_value(cast, node)
+                if ok and cp:
+                    set_at(copy, cp, new)
+            tests.append(rule_test(r, copy))
+        else:
+            tests.append(rule_test(r, doc))
+    return {
+        "rules": rules, "tests": tests, "cast_data": copy,
+        "valid": all(t["valid"] for t in tests),
+        "num_failures": sum(len(t["failures"]) for t in tests),
+        "num_tested": sum(1 for t in tests if t["tested"]),
+    }
